@@ -102,10 +102,21 @@ func (s *Server) InlineCompletion(_ context.Context, params json.RawMessage) (*I
 	return &InlineCompletionList{Items: []InlineCompletionItem{item}}, nil
 }
 
+// payeeTemplatesEntry is what is remembered per document: the templates and
+// the value of docGen they were collected under. Anything that can change
+// them (a document opened, changed, saved or closed, other include limits)
+// advances docGen, so templates collected before such an event are not used
+// after it, even when they are stored after it.
+type payeeTemplatesEntry struct {
+	gen       uint64
+	templates map[string][]analyzer.PostingTemplate
+}
+
 func (s *Server) getPayeeTemplates(uri protocol.DocumentURI, content string) map[string][]analyzer.PostingTemplate {
+	gen := s.docGen.Load()
 	if cached, ok := s.payeeTemplatesCache.Load(uri); ok {
-		if templates, ok := cached.(map[string][]analyzer.PostingTemplate); ok {
-			return templates
+		if entry, ok := cached.(*payeeTemplatesEntry); ok && entry.gen == gen {
+			return entry.templates
 		}
 	}
 
@@ -118,7 +129,7 @@ func (s *Server) getPayeeTemplates(uri protocol.DocumentURI, content string) map
 	}
 
 	verifhook.Point("templates.computed", string(uri))
-	s.payeeTemplatesCache.Store(uri, result.PayeeTemplates)
+	s.payeeTemplatesCache.Store(uri, &payeeTemplatesEntry{gen: gen, templates: result.PayeeTemplates})
 	return result.PayeeTemplates
 }
 
